@@ -73,6 +73,10 @@ def run_check(module_name, tier, seed, replay=None, workers=None):
         cases = [witness['case']]
     else:
         cases = module.plan(tier, seed)
+        if os.environ.get('VERIF_FAMILY'):
+            # development aid: one family of the plan only (no evidence written, floors not applied)
+            cases = [c for c in cases if c.get('family', 'general') == os.environ['VERIF_FAMILY']]
+            os.environ['VERIF_SELFTEST'] = os.environ.get('VERIF_SELFTEST') or 'family'
     workers = workers or NCPU
     workers = max(1, min(workers, len(cases)))
     tmp = os.path.join(os.environ.get('TMPDIR', '/tmp'), f'vsim_run_{os.getpid()}')
@@ -182,7 +186,7 @@ def finish(module, prop, tier, seed, results, inconclusive, wall, replay):
     for name, value in extra_values.items():
         if isinstance(value, (int, float)):
             counters[name] = value
-    floors = getattr(module, 'FLOORS', {}).get(tier, {}) if not replay else {}
+    floors = getattr(module, 'FLOORS', {}).get(tier, {}) if not replay and not os.environ.get('VERIF_FAMILY') else {}
     for name, floor in floors.items():
         if counters.get(name, 0) < floor:
             inconclusive.append(f'counter {name}={counters.get(name, 0)} below its floor {floor}')
